@@ -696,3 +696,5 @@ BOUNDED = ["walkers docx _extract_tables_from_context, odt _extract_tables, odp 
            "sheet builders xlsx _read_content_from_workbook(+_read_sheet_data,_is_table_name_row), xls _read_content + XlsSheet.get_table, ods _extract_sheet: sheets of 1..3 rows x 1..2 columns "
            "over the cell kinds empty/text/int/float/bool/date, duplicate and empty first-row names; values symbolic (xls/xlsx first-row names and ods typed literals concrete)",
            "iterate_tables of every content class: 0..3 stored tables on 0..3 units"]
+
+REPLAY_UNKNOWN = True    # undecided / out-of-subset items are searched natively (replay) before being reported UNDECIDED
